@@ -41,7 +41,7 @@ set_option hygiene false in
 /-- enumerate the accepted arms of `stepCaller s t c e = some s'` (hypothesis `h`), leaving `s'` substituted -/
 macro "step_arms" : tactic => `(tactic| (
   cases hpc : (s.callers c).pc <;> cases e <;> simp only [stepCaller, hpc] at h <;> try (simp at h)
-  all_goals (try (simp only [doAcqI, staleUpdate, doAcqId, connGone] at h))
+  all_goals (try (simp only [doAcqI, staleDrop, doAcqId, connGone] at h))
   all_goals (repeat' (split at h))
   all_goals (try (simp at h; done))
   all_goals (try (simp only [Option.some.injEq] at h))
@@ -358,16 +358,16 @@ theorem step_rel_done (s s' : State) (t c : Nat) (e : Ev) (h : stepCaller s t c 
          first | (simp [nextReq, htl, hm]; done) | simp_all))
 
 set_option maxHeartbeats 4000000 in
-/-- from `done` a caller only returns (or lets the read wrapper's late update happen) -/
+/-- from `done` a caller only returns (or the read wrapper's late update is discarded) -/
 theorem step_from_done (s s' : State) (t c : Nat) (e : Ev) (h : stepCaller s t c e = some s')
-    (hpc : (s.callers c).pc = .done) : (∃ x r, e = .ret x r) ∨ (∃ x v, e = .isconn x v) ∧ (s'.callers c).pc = .done ∧ (s'.callers c).held = (s.callers c).held := by
+    (hpc : (s.callers c).pc = .done) : (∃ x r, e = .ret x r) ∨ (∃ x, e = .drop x) ∧ (s'.callers c).pc = .done ∧ (s'.callers c).held = (s.callers c).held := by
   cases e <;> simp only [stepCaller, hpc] at h <;> try (simp at h)
+  · left; exact ⟨_, _, rfl⟩
   · right
-    simp only [staleUpdate] at h
+    simp only [staleDrop] at h
     split at h
     · simp only [Option.some.injEq] at h; subst h; simp [hpc]
     · simp at h
-  · left; exact ⟨_, _, rfl⟩
 
 set_option maxHeartbeats 8000000 in
 /-- the ghost count of sends only grows within a call -/
@@ -477,6 +477,8 @@ macro "step_arms_ni" : tactic => `(tactic| (
   all_goals (try (exfalso; simp [hid] at hg; done))
   all_goals (try (rw [startIdent_ni' _ _ hid] at hp))
   all_goals (try (rw [startIdent_ni' _ _ hid]))
+  all_goals (try (rw [startIdent_ni _ _ hid] at hp))
+  all_goals (try (rw [startIdent_ni _ _ hid]))
   all_goals (try (rw [rcFail_ni hf.2] at hp))
   all_goals (try (rw [rcFail_ni hf.2]))))
 
